@@ -184,6 +184,9 @@ func receiveFromTransport(ctx context.Context, c *channel, done chan<- struct{})
 		if err != nil {
 			if ctx.Err() == nil {
 				log.Printf("receiveFromTransport: %v", err)
+				// Nothing else can be received: close the transport, so the channel
+				// is no longer reported as established
+				_ = c.transport.Close()
 			}
 			return
 		}
